@@ -214,14 +214,35 @@ type sliceKey struct {
 
 type sliceState struct {
 	seen    map[ssa.Value]bool
-	visited map[sliceKey]bool
+	visited map[sliceKey]int // smallest depth at which the value was expanded (+1)
+	parent  map[ssa.Value]ssa.Value
+	stack   []ssa.Value
+}
+
+// LastTrace: parent links of the most recent Slice call (development aid: why is X in the slice?).
+var LastTrace map[ssa.Value]ssa.Value
+
+func TraceTo(v ssa.Value) string {
+	out := ""
+	for i := 0; i < 60 && v != nil; i++ {
+		where := ""
+		if in, ok := v.(ssa.Instruction); ok && in.Parent() != nil {
+			where = in.Parent().Name()
+		} else if p, ok := v.(*ssa.Parameter); ok {
+			where = p.Parent().Name() + " param"
+		}
+		out += "\n   <- [" + where + "] " + v.Name() + " = " + render(v)
+		v = LastTrace[v]
+	}
+	return out
 }
 
 // Slice returns the backward slice of v. Descents into callees are
 // context-sensitive (a callee's parameter maps back to the call site the
 // descent came from); ascents from an un-entered function go to all callers.
 func (s *Slicer) Slice(v ssa.Value) map[ssa.Value]bool {
-	st := &sliceState{seen: map[ssa.Value]bool{}, visited: map[sliceKey]bool{}}
+	st := &sliceState{seen: map[ssa.Value]bool{}, visited: map[sliceKey]int{}, parent: map[ssa.Value]ssa.Value{}}
+	LastTrace = st.parent
 	s.walk(st, v, 0, nil)
 	return st.seen
 }
@@ -234,11 +255,16 @@ func (s *Slicer) walk(st *sliceState, v ssa.Value, depth int, ctx *callCtx) {
 	if ctx != nil {
 		key.ctx = ctx.call
 	}
-	if st.visited[key] {
+	if prev, ok := st.visited[key]; ok && prev <= depth+1 {
 		return
 	}
-	st.visited[key] = true
+	st.visited[key] = depth + 1
 	st.seen[v] = true
+	if _, has := st.parent[v]; !has && len(st.stack) > 0 {
+		st.parent[v] = st.stack[len(st.stack)-1]
+	}
+	st.stack = append(st.stack, v)
+	defer func() { st.stack = st.stack[:len(st.stack)-1] }()
 	s.walkMutators(st, v, depth, ctx)
 	switch x := v.(type) {
 	case *ssa.Const, *ssa.Global, *ssa.Function, *ssa.Builtin:
@@ -283,6 +309,26 @@ func (s *Slicer) walk(st *sliceState, v ssa.Value, depth int, ctx *callCtx) {
 			s.walk(st, sto.Val, depth, ctx)
 		}
 		s.walkAggregateStores(st, x, depth, ctx)
+		// the cell may hold a map/slice that is filled through loads of the cell (captured variables)
+		holdsAggregate := false
+		if pt, ok := x.Type().Underlying().(*types.Pointer); ok {
+			switch pt.Elem().Underlying().(type) {
+			case *types.Map, *types.Slice:
+				holdsAggregate = true
+			}
+		}
+		for _, a := range addrsOfCell(x) {
+			if !holdsAggregate {
+				break
+			}
+			if refs := a.Referrers(); refs != nil {
+				for _, r := range *refs {
+					if ld, ok := r.(*ssa.UnOp); ok && ld.Op == token.MUL {
+						s.walkAggregateStores(st, ld, depth, ctx)
+					}
+				}
+			}
+		}
 	case *ssa.UnOp:
 		if x.Op == token.MUL {
 			s.walkLoad(st, x, depth, ctx)
@@ -524,7 +570,8 @@ func sliceHasCallTo(sl map[ssa.Value]bool, pkg, name string) bool {
 // value then depends on the call's other arguments.
 func (s *Slicer) walkMutators(st *sliceState, v ssa.Value, depth int, ctx *callCtx) {
 	switch v.Type().Underlying().(type) {
-	case *types.Pointer, *types.Map, *types.Slice, *types.Interface:
+	case *types.Pointer, *types.Interface:
+		// objects with methods that accumulate state (hash.Hash, *big.Int, …)
 	default:
 		return
 	}
@@ -544,8 +591,8 @@ func (s *Slicer) walkMutators(st *sliceState, v ssa.Value, depth int, ctx *callC
 		if _, isB := cl.Call.Value.(*ssa.Builtin); isB {
 			continue
 		}
-		if s.descendable(cl, depth) != nil {
-			continue
+		if s.descendable(cl, 0) != nil {
+			continue // own function with a body: its effects are field stores, handled where they are loaded
 		}
 		isArg := false
 		if cl.Call.IsInvoke() && cl.Call.Value == v {
